@@ -22,7 +22,7 @@ HARNESS = VERIF / "harness"
 JAR = "/opt/veriftools/tla/tla2tools.jar:/opt/veriftools/tla/CommunityModules-deps.jar"
 NCPU = os.cpu_count() or 4
 
-REL_FLAGS = ["-std=gnu99", "-O2", "-DNDEBUG", "-D_POSIX_C_SOURCE=199309L", "-fno-builtin-malloc"]
+REL_FLAGS = ["-std=gnu99", "-O2", "-DNDEBUG", "-D_POSIX_C_SOURCE=199309L", "-fno-builtin-malloc", "-fstack-protector-all"]   # a local array overrun aborts instead of corrupting quietly
 DBG_FLAGS = ["-std=gnu99", "-O0", "-g", "-D_POSIX_C_SOURCE=199309L"]
 GUARD = "CSTL_VERIF"
 
